@@ -23,6 +23,7 @@ func runC12Gaps2(c *eng.Ctx) {
 	c12gBarrierHelper(c)
 	c12gSealedGate(c)
 	c12gCubbyholeID(c)
+	c12gCubbyholeSalt(c)
 	c12gPolicyStoreNamespace(c)
 }
 
@@ -669,4 +670,109 @@ func c12gPolicyStoreNamespace(c *eng.Ctx) {
 			}
 		}
 	}
+}
+
+// ---------- C12.4 writer/reader agreement on the legacy (double-salted) cubbyhole key: the
+// router derives it with RouteEntry.SaltID = salt.SaltID(re.MountEntry.UUID, …), the token
+// store's destroy / tidy paths recompute it with salt.SaltID(cubbyholeBackend.saltUUID, …):
+// saltUUID is written only by Core.setCoreBackend and only with the UUID of the mount entry
+// being installed
+func c12gCubbyholeSalt(c *eng.Ctx) {
+	sf := c.P.Field("vault.CubbyholeBackend.saltUUID")
+	uf := c.P.Field("routing.MountEntry.UUID")
+	mef := c.P.Field("routing.RouteEntry.MountEntry")
+	if sf == nil || uf == nil || mef == nil {
+		c.Clause("R6", "C12.4")
+		c.Unresolved("vault.CubbyholeBackend.saltUUID / routing.MountEntry.UUID / routing.RouteEntry.MountEntry")
+		return
+	}
+	uuidOf := func(v ssa.Value) ssa.Value { // v = X.UUID with X a *routing.MountEntry: returns X
+		ld, ok := c11Strip(v).(*ssa.UnOp)
+		if !ok || ld.Op != token.MUL {
+			return nil
+		}
+		fa, ok := ld.X.(*ssa.FieldAddr)
+		if !ok || eng.FieldVar(fa) != uf {
+			return nil
+		}
+		return fa.X
+	}
+	c.Clause("R6", "C12.4")
+	n := 0
+	for _, w := range c.P.FieldWriters(sf) {
+		top := eng.FuncName(eng.TopFunc(w.Fn))
+		if strings.Contains(top, "esting") {
+			continue
+		}
+		n++
+		if top != "vault.(*Core).setCoreBackend" {
+			c.Violation(w.Fn, "writer{CubbyholeBackend.saltUUID}", w.Store.Pos(), "the salt the token store uses to recompute a token's cubbyhole key is set outside Core.setCoreBackend ("+eng.InstrStr(w.Store)+"): the router derives the key from the mount entry's UUID, the two would disagree and revoking a token would not wipe its cubbyhole", nil)
+			continue
+		}
+		c.OK(w.Fn, "writer{CubbyholeBackend.saltUUID}", w.Store.Pos(), "Core.setCoreBackend")
+		c.Clause("R5", "C12.4")
+		site := "cubbyhole salt = UUID of the mount entry being installed"
+		base := uuidOf(w.Store.Val)
+		if _, isParam := base.(*ssa.Parameter); base != nil && isParam {
+			c.OK(w.Fn, site, w.Store.Pos(), eng.Expr(w.Store.Val))
+		} else {
+			c.Violation(w.Fn, site, w.Store.Pos(), "saltUUID is set from "+eng.ExprDeep(w.Store.Val)+", not from the UUID field of the mount entry handed to setCoreBackend (the field RouteEntry.SaltID uses)", nil)
+		}
+		// the backend whose salt is set is the one published as Core.cubbyholeBackend
+		if fa, ok := w.Store.Addr.(*ssa.FieldAddr); ok {
+			c.Prov(w.Fn, "backend whose salt is set", w.Store, fa.X, `^field:c\.cubbyholeBackend$`, `^param:backend$`)
+		}
+		c.Clause("R6", "C12.4")
+	}
+	c.Floor(nil, "writers of CubbyholeBackend.saltUUID", n, 1)
+	// the router's side: RouteEntry.SaltID salts with re.MountEntry.UUID
+	if f := c.Fn("routing.(*RouteEntry).SaltID"); f != nil {
+		c.Clause("R5", "C12.4")
+		cs := eng.Calls(f, `^salt\.SaltID$`)
+		for _, s := range cs {
+			base := uuidOf(s.Common().Args[0])
+			okR := false
+			if base != nil {
+				if ld, ok := base.(*ssa.UnOp); ok && ld.Op == token.MUL {
+					if fa, ok := ld.X.(*ssa.FieldAddr); ok && eng.FieldVar(fa) == mef {
+						_, okR = fa.X.(*ssa.Parameter)
+					}
+				}
+			}
+			if okR {
+				c.OK(f, "router salts cubbyhole ids with the route entry's MountEntry.UUID", s.Pos(), eng.ExprDeep(s.Common().Args[0]))
+			} else {
+				c.Violation(f, "router salts cubbyhole ids with the route entry's MountEntry.UUID", s.Pos(), "RouteEntry.SaltID salts with "+eng.ExprDeep(s.Common().Args[0])+": the token store recomputes cubbyhole keys from the mount entry's UUID (saltUUID)", nil)
+			}
+		}
+		c.Floor(f, "salt.SaltID in RouteEntry.SaltID", len(cs), 1)
+		for _, r := range eng.Returns(f) {
+			c.Prov(f, "RouteEntry.SaltID result", r, r.Results[0], `^call:salt\.SaltID$`)
+		}
+	}
+	// the token store's side: the recomputed keys are salted with cubbyholeBackend.saltUUID
+	c.Clause("R5", "C12.4")
+	nr := 0
+	for _, f := range c.P.Funcs {
+		if !eng.InPkg(f, "vault") {
+			continue
+		}
+		for _, s := range eng.Calls(f, `^salt\.SaltID$`) {
+			ld, ok := c11Strip(s.Common().Args[0]).(*ssa.UnOp)
+			if !ok || ld.Op != token.MUL {
+				continue
+			}
+			fa, ok := ld.X.(*ssa.FieldAddr)
+			if !ok || structTypeName(fa.X.Type()) != "vault.CubbyholeBackend" {
+				continue
+			}
+			nr++
+			if eng.FieldVar(fa) == sf {
+				c.OK(f, "token store recomputes the cubbyhole key with saltUUID", s.Pos(), eng.ExprDeep(s.Common().Args[0]))
+			} else {
+				c.Violation(f, "token store recomputes the cubbyhole key with saltUUID", s.Pos(), "salted with "+eng.ExprDeep(s.Common().Args[0]), nil)
+			}
+		}
+	}
+	c.Floor(nil, "cubbyhole keys recomputed by the token store (destroy, tidy)", nr, 2)
 }
